@@ -11,6 +11,10 @@ func (p *Pool) Stop() {
 		return
 	}
 
+	p.stopM.Lock()
+	p.stopped = true
+	p.stopM.Unlock()
+
 	p.cancel()
 	p.sendWg.Wait()
 	p.runWg.Wait()
